@@ -197,6 +197,12 @@ class LazyEvaluatedKernelTensor(LinearOperator):
         # Otherwise, we'll use the _noop_index
         if self.last_dim_is_batch:
             *batch_indices, dim_index = batch_indices
+            batch_indices = tuple(batch_indices)  # (a list would be an advanced index of the kernel parameters)
+            # The last batch dimension of this tensor is the input dimension: an index on it selects input columns,
+            # but not the per-dimension parameters of the kernel, and an integer would remove the column axis of x1/x2.
+            # Anything but the full slice is applied to the evaluated kernel.
+            if not (isinstance(dim_index, slice) and dim_index == _noop_index):
+                return self.evaluate_kernel()._getitem(row_index, col_index, *batch_indices, dim_index)
         else:
             dim_index = _noop_index
 
@@ -383,12 +389,17 @@ class LazyEvaluatedKernelTensor(LinearOperator):
         if len(repeats) == 1 and hasattr(repeats[0], "__iter__"):
             repeats = repeats[0]
         *batch_repeat, row_repeat, col_repeat = repeats
+        if self.last_dim_is_batch:
+            # the last batch dimension is the input dimension of x1 / x2 (their last axis), not a batch dimension of them
+            *batch_repeat, dim_repeat = batch_repeat
+            if dim_repeat != 1:
+                return self.evaluate_kernel().repeat(*repeats)
 
         # Repeating batch dimensions: x1, x2 and the kernel parameters may not have all of the batch dimensions
         # of this tensor (broadcasting), and the parameters of a batched kernel cannot be repeated.
         # Unless x1 and x2 carry the full batch shape themselves, repeat the evaluated kernel instead.
         if any(batch_size != 1 for batch_size in batch_repeat):
-            batch_shape = self.shape[:-2]
+            batch_shape = self.shape[:-3] if self.last_dim_is_batch else self.shape[:-2]
             if len(self.kernel.batch_shape) or self.x1.shape[:-2] != batch_shape or self.x2.shape[:-2] != batch_shape:
                 return self.evaluate_kernel().repeat(*repeats)
 
